@@ -623,6 +623,14 @@ def _mgr_run(repo, cls, name, args, cipher=None, hooks_extra=None):
             return PLAIN if mname.startswith("decrypt") else ("fn", "ciphertext", list(a))
         return h
     hooks = {"fn:_get_session_cipher": get_cipher, "fn:_get_group_cipher": get_cipher, "fn:_unpad": unpad, "fn:_generate_random_padding": pad}
+    if cipher and cipher.get("raise_parse"):
+        # the envelope itself is damaged: the library's message class refuses the bytes when it is constructed
+        def parse(itp, label, a, k, env, depth, e):
+            if label.strip(".()").split(".")[-1].endswith("WhisperMessage"):
+                log["cipher"].append(("parse", list(a)))
+                raise _Raise(("ext", cipher["raise_parse"], []), "library raises " + cipher["raise_parse"])
+            return None
+        hooks["extcall"] = parse
     for m in ("decryptMsg", "decryptPkmsg", "decrypt", "encrypt"):
         hooks["ext:cipher." + m] = cipher_call(m)
     hooks.update(hooks_extra or {})
@@ -680,6 +688,24 @@ def rule_map(ctx):
                 bad.append("%s -> %s" % (exc, got if out == "raise" else out))
         ctx.check("C03.map", len(names) >= 3 and not bad, w, "library exceptions mapped by name (%d)" % len(names),
                   "a library exception is mapped to a different (or no) layer exception: %s (the wrong failure branch would run)" % bad, "each caught exception re-raised as its namesake")
+        # an envelope whose framing is damaged (the library's message class refuses the bytes): that, too, is "a message
+        # that cannot be decrypted" and must come out as the layer's invalid-message error, so that a retry is requested
+        if name != "group_decrypt":
+            args = list(base_args) + [("c", True)]
+            out, v, log = _mgr_run(repo, cls, name, args, {"raise_parse": "InvalidMessageException"})
+            got = None
+            if out == "raise":
+                if v[0] == "obj" and v[1].cls is not None:
+                    got = v[1].cls.module.name + "." + v[1].cls.name
+                elif v[0] in ("ext", "fn"):
+                    got = ("yowsup.axolotl.exceptions." + v[1]) if (v[0] == "fn" and ("ext", "module yowsup.axolotl.exceptions", []) in v[2]) else v[1]
+            parsed = [m for m, a in log["cipher"] if m == "parse"]
+            if not parsed:
+                ctx.undecided("C03.map", w, "a damaged envelope is an invalid message", "the message object is not built from the data by a library message class")
+            else:
+                ctx.check("C03.map", got == "yowsup.axolotl.exceptions.InvalidMessageException", w, "a damaged envelope is an invalid message",
+                          "when the library's message class refuses the bytes (damaged framing) the error leaves the manager as %s, not as the layer's InvalidMessageException: the receive path does not catch it - no retry is requested and the message is lost" % (got if out == "raise" else out),
+                          "the parse error is mapped like a failed decryption")
         # padding stripped
         oks = []
         for unpad in ((True, False) if name != "group_decrypt" else (True,)):
